@@ -67,6 +67,14 @@ def r1(ctx):
         if cc:
             a = strip(fe.arg_origin(cc[0], 0))
             good = is_agg(a) and a[1] == "array" and len(a[3]) == 2 and term_has_call(a[3][0][1], "ed25519_dalek::SigningKey::to_bytes") is not None and "public" in term_str(a[3][1][1])
+        if not cc:
+            # the same concatenation spelled with a growing Vec: sk.to_bytes().to_vec() then extend_from_slice(public)
+            ex = [s_ for s_, t_ in fe.calls() if (t_.get("callee") or "").endswith("::extend_from_slice")]
+            if len(ex) == 1:
+                base, tail = fe.arg_origin(ex[0], 0), fe.arg_origin(ex[0], 1)
+                full_key = [e_ for e_ in enc if e_.cls == B and e_.site != enc[0].site]
+                good = term_has_call(base, "ed25519_dalek::SigningKey::to_bytes") is not None and "public" in term_str(tail) and not any(isinstance(x, tuple) and x[0] == "cycle" for x in subterms(base)) \
+                    and bool(full_key) and fe.dominates(ex[0], full_key[0].site) and term_has_call(fe.arg_origin(full_key[0].site, 0), "ed25519_dalek::SigningKey::to_bytes") is not None
         ctx.check(P, rule, "PartialKeypair: stored secret is secret bytes followed by the public key", good, "[sk.to_bytes(), public_key].concat()", "secret key bytes are not laid out as secret || public")
     else:
         ctx.missing(P, rule, "PartialKeypair: CompactEncoding impl", "not found")
